@@ -366,10 +366,20 @@ def classLookup (c : Bytes) : Nat := (classTable.lookup c).getD 0
 
 def classType (cls : Bytes) : Nat := classLookup (stripMarshalPrefix cls)
 
+/-- option ids whose descriptor carries element types -/
+def elemKinds : List Nat := [0x20, 0x21, 0x22, 0x31]
+
+/-- the type of a custom option `0x0000 <class>`: the table's native type for the class; a custom
+    option carries nothing but the class name, so a class the table maps to a collection / tuple
+    kind (the bare marshal class names `ListType`, `SetType`, `MapType`, `TupleType`: no element
+    types) and every unknown class stays custom (0x0000) -/
+def customType (cls : Bytes) : Nat :=
+  if elemKinds.contains (classType cls) then 0 else classType cls
+
 mutual
 def viewType : TypeDesc → TypeInfo
   | .native id => .native { typ := id, custom := [] }
-  | .custom cls => .native { typ := classType cls, custom := cls }
+  | .custom cls => .native { typ := customType cls, custom := cls }
   | .list e => .coll { typ := 0x20, custom := [] } none (viewType e)
   | .map k v => .coll { typ := 0x21, custom := [] } (some (viewType k)) (viewType v)
   | .set e => .coll { typ := 0x22, custom := [] } none (viewType e)
@@ -500,37 +510,12 @@ def wfFields : FieldDescs → Bool
   | .cons n t r => fitsShort n && wfType t && wfFields r
 end
 
-mutual
-/-- EXCLUDED by the `_partial` theorem (known finding KF-C04-1): a custom class name that
-    getApacheCassandraType maps to a collection / tuple kind (the bare marshal class names
-    `ListType`, `SetType`, `MapType`, `TupleType`, with or without prefix) -/
-def noCollClass : TypeDesc → Bool
-  | .native _ => true
-  | .custom cls => ![0x20, 0x21, 0x22, 0x31].contains (classType cls)
-  | .list e => noCollClass e
-  | .map k v => noCollClass k && noCollClass v
-  | .set e => noCollClass e
-  | .udt _ _ fs => noCollClassF fs
-  | .tuple es => noCollClassL es
-def noCollClassL : TypeDescs → Bool
-  | .nil => true
-  | .cons t r => noCollClass t && noCollClassL r
-def noCollClassF : FieldDescs → Bool
-  | .nil => true
-  | .cons _ t r => noCollClass t && noCollClassF r
-end
-
 def wfCols : Cols → Bool
   | .omitted n _ => n < 2147483648
   | .global ks tb cs => fitsShort ks && fitsShort tb && cs.length < 2147483648 &&
       cs.all (fun c => fitsShort c.1 && wfType c.2)
   | .perCol cs => cs.length < 2147483648 &&
       cs.all (fun c => fitsShort c.ks && fitsShort c.table && fitsShort c.name && wfType c.typ)
-
-def noCollClassCols : Cols → Bool
-  | .omitted _ _ => true
-  | .global _ _ cs => cs.all (fun c => noCollClass c.2)
-  | .perCol cs => cs.all (fun c => noCollClass c.typ)
 
 def optFitsInt : Option Bytes → Bool
   | none => true
@@ -606,17 +591,6 @@ def wfPayload : Option (List (Bytes × Option Bytes)) → Bool
 /-- well-formed response for protocol version `v` (1..5) -/
 def wf (v : Nat) (r : LResp) : Bool :=
   (1 ≤ v && v ≤ 5) && wfTracing r.tracing && wfWarnings r.warnings && wfPayload r.payload && wfBody v r.body
-
-def noCollClassMeta (m : Meta) : Bool := noCollClassCols m.cols
-
-def noCollClassBody : Body → Bool
-  | .result (.rows m _) => noCollClassMeta m
-  | .result (.prepared _ _ req (some m)) => noCollClassMeta req && noCollClassMeta m
-  | .result (.prepared _ _ req none) => noCollClassMeta req
-  | _ => true
-
-/-- the exclusion of the `_partial` theorem lifted to a response -/
-def noCollClassResp (r : LResp) : Bool := noCollClassBody r.body
 
 /-- the spec's per-version constraints that the decode theorem does NOT need (the parser is driven by
     the flags, not by the version): warnings / custom payload only from v4, beta flag only in v5,
